@@ -2,6 +2,7 @@
 //! See /verif/DESIGN.md.
 #![allow(clippy::all)]
 
+pub mod convert;
 pub mod core;
 pub mod corpus;
 pub mod fdcap;
